@@ -44,12 +44,13 @@ Shapes ==
     \* printing that pointer gives is not stated (never judged), but a result once obtained must stay what it was
     S9 |-> [fields |-> <<[n |-> "X", v |-> VI(91)]>>, methods |-> {[n |-> "Cust", v |-> [t |-> "embedded", sh |-> "Base"], ptr |-> TRUE]}] ]
 ShapeNames == {"S1", "S2", "S3", "S4", "S5", "S6", "S7"}
-MapKinds == {"any", "mss", "msi"}
+MapKinds == {"any", "mss", "msi", "mii"}        \* mii: map[interface{}]interface{}
 \* objects: a struct value, a pointer to it, or a map of one of three Go map types
 Objects == {[k |-> "struct", sh |-> sn, ptr |-> p, embnil |-> FALSE] : sn \in ShapeNames, p \in BOOLEAN}
            \cup {[k |-> "struct", sh |-> "S7", ptr |-> p, embnil |-> TRUE] : p \in BOOLEAN}
            \cup {[k |-> "struct", sh |-> "S9", ptr |-> p, embnil |-> FALSE, alt |-> a] : p \in BOOLEAN, a \in BOOLEAN}
            \cup {[k |-> "map", g |-> g] : g \in MapKinds}
+           \cup {[k |-> "map", g |-> g, ptr |-> TRUE] : g \in {"any", "mss"}}        \* a pointer to a map
 \* (the untyped map also has the keys "0" and "" -- never looked up themselves: an absent key must not fall back to them)
 MapVal(g, n) == CASE n = "X" -> (IF g = "mss" THEN VS(<<120>>) ELSE VI(8)) [] n = "Y" -> (IF g = "mss" THEN VS(<<121>>) ELSE VI(9)) [] OTHER -> Null
 AttrNames == {"X", "Y", "Z", "W", "Q", "K", "Name", "PName", "AName", "ARename", "hidden", "nosuch", "x", "name", "Cust"} \cap NameSet    \* names are case-sensitive
